@@ -18,6 +18,8 @@ Extraction "c01_model.ml"
   c01_dg_mv c01_dg_mtv c01_dg_umv c01_dg_umtv c01_dg_umhv c01_dg_mmv c01_dg_mmtv c01_dg_mmhv
   c01_dg_usmv c01_dg_usmtv c01_dg_usmhv c01_dg_mul c01_dg_transposed c01_dg_to_dense c01_assign_dense
   c01_tw_mv c01_tw_mtv c01_tw_asdense
+  c01_fill c01_vassign c01_mfill c01_mult_transposed c01_norm_sum c01_norm_max c01_mnorm_sum c01_mnorm_inf
+  c01_Z_abs c01_Z_abs2 c01_G_absreal c01_G_abs2 c01_Z_cmp4
   c01_Z_ops c01_G_ops c01_P_ops
   c01s_map2 c01s_sum c01s_dot c01s_hdot c01s_mat_vec c01s_transpose c01s_conjm c01s_herm
   c01s_vadd c01s_vsub c01s_vscale c01s_vopp c01s_mat_mul c01s_diag c01s_madd c01s_msub c01s_mscale c01s_mopp
